@@ -34,6 +34,14 @@ declarations:
   - decl: int count(int n)
   - decl: enum Fill { SOLID = 3, DASHED }
 - decl: const std::string getLabel()
+  doxygen:
+    brief: |-
+      The label of the library,
+      on two lines.
+    description: |-
+      A description whose last line
+      has no line end.
+    return: the label
 - decl: void scale(double *v +rank(1), int n +implied(size(v)))
 - decl: enum Color { RED, BLUE }
 - decl: void countTo(int *last +intent(out))
@@ -81,6 +89,14 @@ declarations:
       declarations:
       - decl: Leaf()
       - decl: int value() const
+  - decl: namespace quick
+    options:
+      C_extern_C: true
+    declarations:
+    - decl: int twice(int n)
+    - decl: double halve(double x)
+- decl: int apply(int x, int (*fn)(int))
+- decl: double apply(double x, double (*fn)(double))
 """
 
 LIB_C = """
